@@ -82,6 +82,12 @@ CLAIMED = {
    design_ref="DESIGN.md 4.6, 5 (C14)",
    note="Known findings (recorded, reproduced by witness/cmp_after_commit.py): the separator comparison after the leaf deletion in _BTree_set and _Tree._del.",
    technique="typestate / must-reach dataflow on clang AST CFGs (error-successor rules), Python ast ordering rule"),
+ "C11": dict(
+   category="other",
+   text="For each of the 16 integer-key translation units, with its own resolved element type: the byte order of the final radix pass is extracted by typed constant folding of the pass-selection conditions and must match the signedness of the key type (0x80..0xff,0x00..0x7f iff signed, 0x00..0xff iff unsigned), lower bytes plain; histogram rows == key width and all filled; uniq() reaches every non-trivial return only through the `in != out` copy decision and writes the caller's array; multiunion_m appends under the capacity test and takes the result length from the sorter; the Python fallback merges every operand unconditionally. Settles the sign/width handling for all 16 families (the tests run none of them on the radix path); correctness of quicksort/insertion sort as algorithms is not decided.",
+   design_ref="DESIGN.md 4.8, 5 (C11)",
+   note="Trusted: endianness handling of the byte pointer; quicksort/insertionsort.",
+   technique="typed constant folding + structural extraction over clang AST per family, dominator check (uniq), Python ast rule"),
 }
 
 NA_PENDING = "check not built yet (engine under construction); see DESIGN.md section 11"
